@@ -134,7 +134,8 @@ MonC09(t) ==
 (* C11 monitor: runs[1] has all protocols enabled and parsing on           *)
 (***************************************************************************)
 MonC11run(t, base, r) ==
-    IF r.end # "eof" \/ base.end # "eof" THEN "triv"
+    IF base.end # "eof" THEN "triv"
+    ELSE IF r.end # "eof" THEN (IF r.quit = 2 THEN "triv" ELSE "C11:run-with-this-mask-did-not-end-normally:" \o r.end)
     ELSE IF r.parsing = 1 THEN
         LET keep == SelectSeq(base.items, LAMBDA id : InMask(r.filter, ProtOfRaw(Raw(t, id))))
         IN IF r.items # keep THEN "C11:mask-changed-framing"
@@ -238,8 +239,8 @@ EnvNote(t) ==
     IN IF bad = {} THEN "" ELSE "EXT:parser-accepted-frame-failing-its-checksum-rule:" \o t.recipe[CHOOSE i \in bad : TRUE].p
 ItemNote(t) ==
     LET bad == {k \in 1..Len(t.runs) : t.runs[k].validate = 1 /\ t.runs[k].parsing = 1 /\
-                    \E i \in 1..Len(t.runs[k].items) :
-                        t.runs[k].items[i] # 0 /\ t.runs[k].pt[i] # "None" /\
+                    \E i \in 1..Min2(Len(t.runs[k].items), Len(t.runs[k].pt)) :
+                        t.runs[k].items[i] \in 1..Len(t.raws) /\ t.runs[k].pt[i] # "None" /\
                         ~Interpreted(Raw(t, t.runs[k].items[i]), ProtOfRaw(Raw(t, t.runs[k].items[i])))}
     IN IF bad = {} THEN "" ELSE "EXT:reader-delivered-parsed-item-failing-its-checksum-rule"
 
